@@ -63,13 +63,29 @@ RULE = ('certificate hierarchies of chain length 1..4 built with the real securi
         'hands the anchors over in mutable buffers (optionally ONE buffer for all instances) that are overwritten before the '
         'first validation starts; the model and the oracle are given the history of the CALLS with the wire each buffer held '
         'at the call (theorem C14_memory_history_is_call_history; the history as written is also run on the extracted model '
-        'of the caller\'s memory, Model/ValidatorMem.v): the verdicts may depend on nothing else.  non-trivial = at least one validation that needs a certificate '
+        'of the caller\'s memory, Model/ValidatorMem.v): the verdicts may depend on nothing else; '
+        'KeyLocators that are FULL NAMES <certificate name>/sha256digest=<d> (ImplicitSha256Digest component), at the packet '
+        'and at every certificate of the chain including the element that names the anchor, chain length 0..3: the RIGHT digest '
+        'of the signer\'s certificate as it is retrievable (for the anchor: of the anchor wire, the anchor retrievable from '
+        'the network or only configured) or a digest NOTHING retrievable under that name has -- one bit flipped (last / '
+        'first byte), all zeros, 31 bytes, 33 bytes, empty, the digest of another retrievable certificate, the digest of a '
+        'superseded copy of the signer\'s certificate (same name and issuer, other key, not retrievable); every signature '
+        'genuine and every certificate retrievable under its plain name, so only the locator decides; as ONE deviation at '
+        'every link (cold and warm, also above two overlapping validations) and as vectors of forms over all links (all '
+        'right / right-plain mixtures / one wrong digest somewhere / all wrong) followed by packets of the leaf\'s signer '
+        'with plain, right and wrong full-name locators and the certificates themselves, validated twice in random orders '
+        '(a key cached under the plain name or under one full name must not answer for another full name); the harness\' '
+        'network answers an Interest for a full name only with the Data retrievable under the name whose SHA-256 (hashlib, '
+        'over the wire) is that digest, and the world given to model and specification lists a full name as retrievable '
+        'under exactly that condition: "names the next as its key" and "can be retrieved" are read on full names, a locator '
+        'that pins a digest nothing retrievable has is not a link of a chain.  non-trivial = at least one validation that needs a certificate '
         'fetch or a constructor decision; distinct by (scenario tag, key types, order / schedule)')
 ASSUMPTIONS = [
     'signature verification and key import are oracles: the model receives the results of the real '
     'known_key_validator.verify_* / Cryptodome import_key for every (key, packet) pair it can ask about',
     'the schema is an oracle: check/match/root_of_trust/validate_user_fns answers are recorded from the real Checker (C11-C13 model it)',
-    'NDNApp.express_interest delivers a Data only for the exact requested name (C03/C05); names are compared component-wise '
+    'NDNApp.express_interest delivers a Data only for the exact requested name -- for a name that ends in an ImplicitSha256Digest '
+    'component: only a Data of the name before it whose SHA-256 is that digest (C03/C05) -- ; names are compared component-wise '
     '(MemoryKeyStorage keys on Name.to_bytes, injective on well-formed names: C09_wire_roundtrip)',
     'the retrievable-certificate world is fixed during a history',
     'caller memory: a buffer is rewritten only after the call it was handed to has returned (constructor) / answered (validation), '
@@ -337,6 +353,28 @@ def tampered(wire):
     return bytes(b)
 
 
+def digest_comp(wire, how='right'):
+    """the ImplicitSha256Digest component (type 1) of a Data wire, or a component of that type that is NOT its digest:
+    one bit flipped / all zeros / one byte short / one byte long / empty"""
+    from hashlib import sha256
+    d = sha256(bytes(wire)).digest()
+    if how == 'flipped':
+        d = d[:-1] + bytes([d[-1] ^ 0x01])
+    elif how == 'flipped-first':
+        d = bytes([d[0] ^ 0x80]) + d[1:]
+    elif how == 'zeros':
+        d = bytes(32)
+    elif how == 'short':
+        d = d[:31]
+    elif how == 'long':
+        d = d + b'\x00'
+    elif how == 'empty':
+        d = b''
+    else:
+        assert how == 'right', how
+    return bytes([0x01, len(d)]) + d
+
+
 class World:
     """packets (pid = index), store (name bytes -> response), for one scenario"""
 
@@ -360,6 +398,33 @@ class World:
     def respond(self, name, what):
         from ndn.encoding import Name
         self.store[Name.to_bytes(name)] = (what,)
+
+    def lookup(self, name):
+        """What the network answers to an Interest for [name] (list of components or wire of the name): the entry of
+        the store for exactly that name, else -- [name] is a FULL name <n>/sha256digest=<d> -- the Data retrievable
+        under <n> if and only if the SHA-256 of its wire is <d> (what a forwarder / NDNApp lets through for an Interest
+        that carries an implicit digest), else nothing (the Interest times out).  Computed here with hashlib from the
+        wires of the world, never from what the library does."""
+        from ndn.encoding import Name
+        nb = name if isinstance(name, (bytes, bytearray)) else Name.to_bytes(name)
+        r = self.store.get(bytes(nb))
+        if r is not None:
+            return r
+        comps = [bytes(c) for c in Name.from_bytes(nb)] if isinstance(name, (bytes, bytearray)) else [bytes(c) for c in name]
+        if comps and comps[-1][:1] == b'\x01':
+            base = self.store.get(Name.to_bytes(comps[:-1]))
+            if base is not None and base[0] == 'data' and digest_comp(self.pkts[base[1]]) == comps[-1]:
+                return base
+        return None
+
+    def full_locators(self):
+        """the key locators of the world's packets that are full names (last component an implicit digest)"""
+        out = []
+        for pid in range(len(self.pkts)):
+            kl = self.kl(pid)
+            if kl is not None and kl[-1][:1] == b'\x01' and kl not in out:
+                out.append(kl)
+        return out
 
     def parse(self, pid):
         if pid not in self.parsed:
@@ -395,6 +460,11 @@ class World:
         for nb, r in self.store.items():
             n = [bytes(c) for c in Name.from_bytes(nb)]
             F.append([n, [0, r[1]] if r[0] == 'data' else ([1] if r[0] == 'nack' else [3, 1000])])
+        for kl in self.full_locators():
+            # a full name is retrievable iff something retrievable under the name has that digest (World.lookup)
+            r = self.lookup(kl)
+            if r is not None and Name.to_bytes(kl) not in self.store:
+                F.append([kl, [0, r[1]]])
         akeys = set()
         for a in anchors:
             c = self.parse(a)['content']
@@ -413,7 +483,7 @@ class World:
                 keys.add(p['content'][0])        # self-signature (anchors)
             kl = self.kl(pid)
             if kl is not None:
-                r = self.store.get(Name.to_bytes(kl))
+                r = self.lookup(kl)
                 if r and r[0] == 'data':
                     c = self.parse(r[1])['content']
                     if c:
@@ -460,7 +530,7 @@ class FakeFace:
         self.sent.append([bytes(c) for c in name])
         if not param.must_be_fresh or param.can_be_prefix:
             self.flag_errors.append((bool(param.must_be_fresh), bool(param.can_be_prefix)))
-        r = self.world.store.get(Name.to_bytes(name))
+        r = self.world.lookup(name)
         if r is None:
             return
         if r[0] == 'data':
@@ -977,12 +1047,69 @@ DEVIATIONS = ['none', 'forged-sig', 'tampered', 'wrong-signer', 'subst-key-same'
               'subst-key-empty', 'missing', 'nack', 'neterr', 'no-siginfo', 'digest-sig', 'keydigest-locator',
               'empty-locator', 'sigtype-mismatch', 'sigtype-unknown', 'sigtype-hmac', 'hmac-with-pubkey', 'schema-denied', 'skip-level',
               'attacker-cert', 'anchor-name-forged', 'anchor-near-locator']
+# KeyLocator of ONE element given as a FULL name <certificate name>/sha256digest=<d>: the right digest of the signer's
+# retrievable certificate, or a digest that nothing retrievable has
+FULLNAME_WRONG = ['flipped', 'flipped-first', 'zeros', 'short', 'long', 'empty', 'other-cert', 'superseded']
+FULLNAME_FORMS = ['right'] + FULLNAME_WRONG
+DEVIATIONS += ['fullname-' + k for k in FULLNAME_FORMS]
+
+
+def fullname_world(env, rng, h, depth, forms, anchor_served=False):
+    """The hierarchy of [h] down to [depth] in which the KeyLocator of element e (0 = leaf, k = k-th certificate counted
+    from the leaf; element [depth] is signed by the anchor) has the form forms[e]:
+      plain        the signer's certificate name
+      right        that name + the implicit digest of the signer's certificate AS RETRIEVABLE (of the anchor wire for
+                   the element signed by the anchor; the anchor is retrievable only if anchor_served)
+      flipped, flipped-first, zeros, short (31 bytes), long (33), empty   a digest component that is not that digest
+      other-cert   the digest of ANOTHER retrievable certificate (a bystander issued by the anchor)
+      superseded   the digest of a copy of the signer's certificate (same name, same issuer, another key) that is
+                   not retrievable
+    Every signature is genuine and every certificate is retrievable under its name: whether there is a chain is decided
+    by the locators alone.  Built top-down (the digest of a certificate depends on its own locator).
+    Returns world, anchor pid, leaf pid, {e: pid}, mk_loc(form, signer level, signer wire)."""
+    w = World(env)
+    anchor = w.add(h.build_cert('root'))
+    if anchor_served:
+        w.serve(h.names['root'], anchor)
+    kz = other_key(env, rng, h)
+    nz, wz = env.cert('/lvs/admin/zed/KEY/kz', h.kid['root'], 1, kz[2], env.signer(h.key['root'], h.names['root']))
+    bystander = w.add(wz)
+    w.serve(nz, bystander)
+
+    def mk_loc(form, signer_lv, signer_wire):
+        nm = [bytes(c) for c in h.names[signer_lv]]
+        if form == 'plain':
+            return nm
+        if form == 'other-cert':
+            return nm + [digest_comp(w.pkts[bystander])]
+        if form == 'superseded':
+            k2 = other_key(env, rng, h, h.key[signer_lv][0])
+            return nm + [digest_comp(h.build_cert(signer_lv, pub=k2[2]))]
+        return nm + [digest_comp(signer_wire, form)]
+    elems = {}
+    above = w.pkts[anchor]
+    for e in range(depth, -1, -1):
+        signer_lv = LEVELS[depth - e]
+        signer = env.signer(h.key[signer_lv], mk_loc(forms[e], signer_lv, above))
+        if e == 0:
+            pid = w.add(env.data(h.leaf_name(depth), b'payload', signer))
+        else:
+            lv = LEVELS[depth - e + 1]
+            pid = w.add(h.build_cert(lv, signer=signer))
+            w.serve(h.names[lv], pid)
+        elems[e] = pid
+        above = w.pkts[pid]
+    return w, anchor, elems[0], elems, mk_loc
 
 
 def deviate(env, rng, h, depth, link, dev):
     """World with ONE deviation at link [link]: element link (0 = leaf, k = k-th certificate counted from the leaf)
     signed by element link+1 (depth = the anchor).  Returns (world, anchor pid, leaf pid) or None if not applicable."""
     from ndn.encoding import Name
+    if dev.startswith('fullname-'):
+        forms = ['plain'] * (depth + 1)
+        forms[link] = dev[len('fullname-'):]
+        return fullname_world(env, rng, h, depth, forms, anchor_served=rng.random() < 0.5)[:3]
     w, anchor, chain = base_world(env, h, depth)
     # element e: level of the element and of its signer
     lv_of = lambda e: None if e == 0 else LEVELS[depth - e + 1]      # noqa
@@ -1144,6 +1271,9 @@ def gen_single(ctx, env):
         for depth in range(0, 4):
             for link in range(0, depth + 1):
                 for dev in DEVIATIONS:
+                    if (dev.startswith('fullname-') and not ctx.thorough
+                            and (FULLNAME_FORMS.index(dev[9:]) + 4 * rnd + 2 * depth + link) % 9 not in (0, 4)):
+                        continue        # quick: 2 of the 9 full-name forms per (round, depth, link), in rotation
                     h = Hier(env, rng)
                     r = deviate(env, rng, h, depth, link, dev)
                     if r is None:
@@ -1396,6 +1526,51 @@ def gen_same_key(ctx, env):
 # "deliver <name>" (the real NDNApp then satisfies every pending Interest of that name at once) or "expire" (the
 # Interests nobody answers time out); between two events the loop runs to quiescence, so the schedule IS the
 # linearisation.  Model: Model/ValidatorConc.v (request 4); theorems C14_concurrent_iff / C14_schedule_independent.
+def gen_fullnames(ctx, env):
+    """KeyLocators that are FULL names, at every link at once.  Per scenario a vector of forms (one per element of the
+    chain) -- all right, right below a plain top, right/plain mixtures, a mixture with ONE wrong digest somewhere, all wrong -- with the anchor
+    retrievable or not; then one instance validates, in a random order and a second time in another order (cold / warm
+    key storage: a key cached under the plain name or under one full name must not answer for another full name): the
+    leaf, four more packets of the leaf's signer whose locators are plain / right / two wrong digests, and every
+    certificate of the chain as a packet of its own."""
+    rng = ctx.rng
+    for rnd in range(ctx.n(1, 8)):
+        for depth in range(0, 4):
+            n = depth + 1
+            top = lambda: 'plain' if rng.random() < 0.7 else 'right'      # noqa  (form of the element the anchor signs)
+            vectors = [('all-right', ['right'] * n, False), ('all-right', ['right'] * n, True),
+                       ('right-below-plain-top', ['right'] * depth + ['plain'], rng.random() < 0.5),
+                       ('right-plain', [rng.choice(['plain', 'right']) for _ in range(depth)] + [top()], rng.random() < 0.5)]
+            for _ in range(ctx.n(2, 5)):
+                v = [rng.choice(['plain', 'right', 'right']) for _ in range(depth)] + [top()]
+                k = rng.randrange(n)
+                v[k] = rng.choice(FULLNAME_WRONG)
+                vectors.append((f'one-wrong:{v[k]}', v, rng.random() < 0.5))
+            vectors.append(('all-wrong', [rng.choice(FULLNAME_WRONG) for _ in range(n)], True))
+            for shape, forms, served in vectors:
+                h = Hier(env, rng)
+                w, anchor, leaf, elems, mk_loc = fullname_world(env, rng, h, depth, forms, served)
+                lv = LEVELS[depth]
+                above = w.pkts[elems[1]] if depth else w.pkts[anchor]
+                pk = [leaf] + [elems[e] for e in range(1, depth + 1)]
+                for i, f in enumerate(['plain', 'right'] + rng.sample(FULLNAME_WRONG, 2)):
+                    pk.append(w.add(env.data(alt_leaf(h, depth, 2 + i), b'variant ' + f.encode(),
+                                             env.signer(h.key[lv], mk_loc(f, lv, above)))))
+                kind = 'cascade' if (rnd + depth + len(shape)) % 3 == 0 else 'lvs'
+                ops = [('lvs', 0, anchor, None) if kind == 'lvs' else ('cascade', anchor, None)]
+                for _ in range(2):
+                    rng.shuffle(pk)
+                    ops += [('val', 0, p) for p in pk]
+                tag = (f'fullname:{shape}:d{depth}:{kind}:anchor-{"served" if served else "configured-only"}:'
+                       + ','.join(forms))
+                impl = check_history(ctx, env, w, ops, tag)
+                ctx.case((tag, rnd), nontrivial=True, stratum=f'fullname:{shape}',
+                         sample={'tag': tag, 'obs': [o[:3] for o in impl]})
+                for f in forms:
+                    ctx.stat('fullname-locator:' + f)
+                ctx.stat('fullname-accepted:%d' % sum(1 for o in impl if o[0] == 'val' and o[1] == 'ok' and o[2] == 1))
+
+
 MAX_EVENTS = 26
 
 
@@ -1419,7 +1594,7 @@ class ConcFace:
         self.sent.setdefault(tid, []).append([bytes(c) for c in name])
         if not param.must_be_fresh or param.can_be_prefix:
             self.flag_errors.append((bool(param.must_be_fresh), bool(param.can_be_prefix)))
-        r = self.world.store.get(nb)
+        r = self.world.lookup(nb)
         if r is not None and r[0] == 'fail':
             raise NetworkError('injected')
         self.pending = [e for e in self.pending if e[0] != tid] + [[tid, nb]]
@@ -1489,7 +1664,7 @@ def run_conc_impl(env, world, ctors, threads, choose=None, script=None, own_stor
                 for _, nb in face.pending:
                     if nb not in names:
                         names.append(nb)
-                live = [nb for nb in names if world.store.get(nb) is not None]
+                live = [nb for nb in names if world.lookup(nb) is not None]
                 enabled += [('deliver', nb) for nb in live]
                 if names and not live:
                     enabled.append(('expire',))      # only Interests that nobody will ever answer are left
@@ -1506,7 +1681,7 @@ def run_conc_impl(env, world, ctors, threads, choose=None, script=None, own_stor
                     loop.settle(200)
             elif ev[0] == 'deliver':
                 nb = bytes(ev[1])
-                r = world.store.get(nb)
+                r = world.lookup(nb)
                 if r is not None and r[0] in ('data', 'nack'):
                     face.pending = [e for e in face.pending if e[1] != nb]
                     if r[0] == 'data':
@@ -1515,7 +1690,7 @@ def run_conc_impl(env, world, ctors, threads, choose=None, script=None, own_stor
                         app._on_nack(Name.from_bytes(nb), 150)
                     loop.settle(200)
             else:
-                face.pending = [e for e in face.pending if world.store.get(e[1]) is not None]
+                face.pending = [e for e in face.pending if world.lookup(e[1]) is not None]
                 loop.advance_to(loop.time() + 4.5)
             out['events'].append(ev)
             out['queues'].append([[tid, [bytes(c) for c in Name.from_bytes(nb)]] for tid, nb in face.pending])
@@ -1784,7 +1959,8 @@ CONC_SHAPES = [
     ('family', ['leaf', 'sibling-signer', 'parent-signer', 'same-signer']),
 ]
 CONC_DEVIATIONS = ['forged-sig', 'tampered', 'missing', 'nack', 'neterr', 'subst-key-same', 'subst-key-empty',
-                   'attacker-cert', 'no-siginfo', 'sigtype-hmac', 'schema-denied']
+                   'attacker-cert', 'no-siginfo', 'sigtype-hmac', 'schema-denied',
+                   'fullname-right', 'fullname-flipped', 'fullname-superseded', 'fullname-zeros']
 
 
 def gen_concurrent(ctx, env):
@@ -2003,6 +2179,7 @@ def run(ctx):
     gen_buffers(ctx, env)
     gen_concurrent(ctx, env)
     gen_same_key(ctx, env)
+    gen_fullnames(ctx, env)
     gen_anchors(ctx, env)
     gen_roots(ctx, env)
     gen_loops(ctx, env)
